@@ -447,6 +447,13 @@ def isMatch (S : Schema) (t : Node) (m : Node) : Bool :=
 /-- manual scan -/
 def findScan (S : Schema) (l : List Node) (t : Node) : Option Nat := (l.find? (isMatch S t)).map (·.id)
 
+/-- `lyd_hash_table_val_equal` on a record found under hash `hk`: the record's node (dereferenced by identity)
+    must compare equal to the target -/
+def recMatches (S : Schema) (l : List Node) (t : Node) (hk : HKey) (r : Rec) : Bool :=
+  r.1 == hk && (match l.find? (fun m => m.id == r.2) with
+                | some m => isMatch S t m
+                | none => false)
+
 /-- through the hash table: dup-inst lists walk the instances from the first-instance record,
     everything else is `lyht_find` under the target's hash with `lyd_hash_table_val_equal` -/
 def findHt (S : Schema) (recs : List Rec) (l : List Node) (t : Node) : Option Nat :=
@@ -461,9 +468,7 @@ def findHt (S : Schema) (recs : List Rec) (l : List Node) (t : Node) : Option Na
       match hkeyOf S t with
       | none => none
       | some hk =>
-        (recs.find? (fun r => r.1 == hk && (match l.find? (fun m => m.id == r.2) with
-                                               | some m => isMatch S t m
-                                               | none => false))).map (·.2)
+        (recs.find? (recMatches S l t hk)).map (·.2)
 
 def findFirst (S : Schema) (cx : Cx) (s : Sibs) (t : Node) : Option Nat :=
   match (if cx.nested then s.ht else none) with
